@@ -113,6 +113,41 @@ Section AL.
       + rewrite IH. lia.
   Qed.
 
+  Lemma al_sumk_del g k m :
+    al_sumk g (al_del eqb k m) = al_sumk g m - (match al_get eqb k m with Some x => g k x | None => 0 end).
+  Proof.
+    induction m as [|[k' v'] m IH]; simpl.
+    - lia.
+    - destruct (eqb k k') eqn:E; simpl.
+      + apply eqb_eq in E; subst. lia.
+      + rewrite IH. lia.
+  Qed.
+
+  Lemma al_del_in k m k' (v' : V) : In (k', v') (al_del eqb k m) -> In (k', v') m.
+  Proof.
+    induction m as [|[k2 v2] m IH]; simpl; auto.
+    destruct (eqb k k2); [now right|]. intros [H|H]; [now left | right; auto].
+  Qed.
+
+  Lemma nodup_al_del k (m : list (K * V)) : NoDup (map fst m) -> NoDup (map fst (al_del eqb k m)).
+  Proof.
+    induction m as [|[k2 v2] m IH]; simpl; auto. intros ND. inversion ND as [|? ? N0 ND']; subst.
+    destruct (eqb k k2); auto. simpl. constructor; auto.
+    intros H. apply N0. apply in_map_iff in H. destruct H as ([k3 v3] & E & H). simpl in E. subst k3.
+    apply al_del_in in H. apply (in_map fst) in H. exact H.
+  Qed.
+
+  Lemma in_al_del_nodup k m k' (v' : V) : NoDup (map fst m) -> In (k', v') (al_del eqb k m) -> k' <> k /\ In (k', v') m.
+  Proof.
+    induction m as [|[k2 v2] m IH]; simpl; intros ND; [tauto|].
+    inversion ND as [|? ? N0 ND']; subst.
+    destruct (eqb k k2) eqn:E.
+    - apply eqb_eq in E; subst. intros H. split; [|now right]. intros ->. apply N0. apply (in_map fst) in H. exact H.
+    - intros [[= <- <-]|H].
+      + split; [|now left]. intros ->. rewrite eqb_refl in E. discriminate.
+      + destruct (IH ND' H). split; auto.
+  Qed.
+
   Lemma al_sumk_nonneg g m : (forall k v, In (k, v) m -> 0 <= g k v) -> 0 <= al_sumk g m.
   Proof.
     induction m as [|[k v] m IH]; simpl; intros H; [lia|].
